@@ -409,6 +409,9 @@ def op_conv_rauw(w, a, b, c, d):
     rs = [v for v in rs if v is not None]
     if not vs:
         return None
+    if (d >> 6) % 7 == 3 and rs:
+        conv.replace_all_uses_with(vs[0], rs[0], replace_graph_outputs=bool(d & 1))  # scalar form
+        return None
     conv.replace_all_uses_with(vs, rs, replace_graph_outputs=bool(d & 1))
 
 
@@ -866,7 +869,28 @@ def op_rename_values(w, a, b, c, d):
     vs = [v for v in vs if v is not None]
     if not vs:
         return None
-    mode = d % 6
+    mode = d % 8
+    if mode == 6:
+        # scalar form
+        conv.rename_values(vs[0], name_from(w, b) or w.fresh_name("rn"))
+        return None
+    if mode == 7:
+        # one value listed twice (same / conflicting targets), or a wrong-typed element planted at position k
+        names = [w.fresh_name("rn") for _ in vs]
+        k = (d // 8) % len(vs)
+        how = (d // 64) % 4
+        if how == 0:
+            vs = vs + [vs[k]]
+            names = names + [names[k]]
+        elif how == 1:
+            vs = vs + [vs[k]]
+            names = names + [w.fresh_name("other")]
+        elif how == 2:
+            vs[k] = "not a value"
+        else:
+            names[k] = None
+        conv.rename_values(vs, names)
+        return None
     if mode == 5:
         # directed: values backed by tensors (two of them by ONE tensor object when there is such a pair), each given a
         # different fresh name, and last a value whose tensor rejects the name it is asked to take
